@@ -12,13 +12,14 @@ use std::collections::BTreeMap;
 pub struct WorldG;
 
 fn gen_set(rng: &mut Rng, keys: &KeyPool, sorted: &[u8]) -> MSet {
-    let n = match rng.weighted(&[3, 3, 4, 3, 2, 1]) {
+    let n = match rng.weighted(&[3, 3, 4, 3, 2, 1, 1]) {
         0 => 1,
         1 => 2,
         2 => 3,
         3 => rng.range(4, 5) as usize,
         4 => rng.range(6, 7) as usize,
-        _ => 8,
+        5 => 8,
+        _ => rng.range(9, N_KEYS as u64) as usize,
     };
     // choose n distinct keys, keep public-key order
     let mut chosen: Vec<u8> = sorted.to_vec();
